@@ -8,13 +8,14 @@ class ScriptPass(AbstractPass):
     """ops: list of tuples ('del',i) ('dup',i) ('swap',i) ('delch',ch) ('set',str) ('same',)
     ('inval',) ('stop',) ('err',) ('raise',)"""
 
-    def __init__(self, key, ops, aos=0, maxt=None, newfix=None):
+    def __init__(self, key, ops, aos=0, maxt=None, newfix=None, via_temp=False):
         super().__init__(None, {})
         self.key = key
         self.ops = list(ops)
         self.aos = aos
         self.max_transforms = maxt
         self.newfix = newfix
+        self.via_temp = via_temp      # write through a temp file next to the target and move it (as the real passes do)
 
     def __repr__(self):
         name = f'ScriptPass::{self.key}'
@@ -60,8 +61,15 @@ class ScriptPass(AbstractPass):
         r = apply_op(op, c)
         if isinstance(r, PassResult):
             return (r, state)
-        with open(test_case, 'wb') as f:
-            f.write(r)
+        if self.via_temp:
+            import shutil
+            import tempfile
+            with tempfile.NamedTemporaryFile(mode='wb', delete=False, dir=os.path.dirname(test_case)) as tf:
+                tf.write(r)
+            shutil.move(tf.name, test_case)
+        else:
+            with open(test_case, 'wb') as f:
+                f.write(r)
         return (PassResult.OK, state)
 
 
